@@ -40,4 +40,23 @@ TEXTS = {
         'note': ('Spec/KernelTypes.v is a trusted transcription of LiteRT kernel support, validated by '
                  'execution. Axioms: none.'),
     },
+    'C01': {
+        'level': ('Unbounded step theorems on the performer model (all subgraphs, tensors, consumer lists, '
+                  'parameters): one QUANTIZE/DEQUANTIZE insertion or in-place tensor quantization preserves '
+                  'well-formedness (indices in range, single producer, producers before readers, I/O in range) '
+                  'and places the op after the producer and before every rewired reader. The model (instruction '
+                  'generator + performer + transformations, as fixed) is tied to /repo by correspondence I/T/E on '
+                  'generated graphs x recipes (the returned bytes are re-parsed), the check_* predicates and dtype '
+                  'maps are regenerated from source; a direct WF oracle and the interpreter run on every returned model.'),
+        'note': ('Composition over whole instruction lists is not yet a theorem (validated by correspondence + '
+                 'oracle); interpreter behaviour is runtime. Axioms: none.'),
+    },
+    'C02': {
+        'level': ('Unbounded step theorems: an insertion rewires exactly the listed consumers (and the graph '
+                  'output only when -1 is listed), changes no other operand/result/option, adds exactly one op; '
+                  'in-place quantization keeps all wiring; signature outputs follow a rewired output within the '
+                  'same subgraph only. Same model/correspondence as C01 plus a skeleton/erasure/signature oracle '
+                  'comparing input and output flatbuffers.'),
+        'note': 'Composition (erase(output) = input for whole runs) is validated by the oracle, not yet proved. Axioms: none.',
+    },
 }
